@@ -28,6 +28,10 @@
 //!            <next_outbound_htlc_minimum_msat> <next_outbound_htlc_limit_msat> - 0 0 0
 //!   a BlindedTail is the last element of its path: <index of the blinded path> 999 <final_value_msat> 0 1
 //! The public candidates on the line are dumped from `NetworkGraph::read_only()` (not from what the generator sent).
+//! C16b: `PROBES` = deterministic minimal inputs of the known findings KF-C16-7 … 11 (and of the corrected false alarm FA-C16-7/A), run through
+//! the real find_route at the start of every c16router run; a failure carries a stable id (KF7 … KF11) only when it shows that finding's
+//! signature, and at most KF_CAP failures are reported per id and run. `parse_case` / `run_case` rebuild the router's inputs from an op line
+//! (also used by `c16 c16replay --replay FILE`, which now accepts whole oracle messages: the line is searched for `route ` / `noroute `).
 use bitcoin::amount::Amount;
 use bitcoin::constants::ChainHash;
 use bitcoin::secp256k1::{PublicKey, Secp256k1, SecretKey};
@@ -207,16 +211,15 @@ impl Kind {
 	fn from_tag(t: &str) -> Kind { match t { "p" => Kind::Pub, "f" => Kind::First, "h" => Kind::Hint, "b" => Kind::Blinded, "o" => Kind::OneHop, _ => panic!("kind {}", t) } }
 	fn is_blinded(self) -> bool { matches!(self, Kind::Blinded | Kind::OneHop) }
 }
-/// Candidate finding "first-hop bypass" (see `record`): `true` turns the documented probe outcome into a failure.
-const FLAG_FIRST_HOP_BYPASS: bool = false;
-/// Candidate finding "max_path_count exceeded after the contribution was rounded down" (see `record`): `true` makes it a failure.
-const FLAG_PATH_COUNT_ROUNDING: bool = false;
-/// Candidate finding "blinded path at a first-hop peer stitched to a longer continuation" (see `record`): `true` makes it a failure.
-const FLAG_BLINDED_INTRO_STITCH: bool = false;
-/// Candidate finding "merging identical paths rounds the fee up past a limit" (see `record`): `true` makes it a failure.
-const FLAG_MERGE_ROUNDING: bool = false;
-/// Candidate finding "raise to a hop's own minimum is not booked as used liquidity" (see `record`): `true` makes it a failure.
-const FLAG_OWN_MINIMUM_RAISE: bool = false;
+/// KNOWN FINDINGS of the unchanged router (DESIGN 9.3; one `known:` line each in /verif/known_findings.txt, fixes proposed in
+/// /verif/run/fixes/C16-<n>.diff). Each is an ORACLE FAILURE whose message starts with the stable id + pattern below; it is only
+/// given to a failure that shows the finding's specific signature (see `kf_route_tag` / the panic arm of `record`), so a different
+/// violation of the same clause is still reported as a plain failure.
+const KF7: &str = "KF-C16-7 route hint naming a channel of the graph bypasses the filters of the graph walk (a public channel of the payer outside first_hops / a public channel whose direction is disabled)";
+const KF8: &str = "KF-C16-8 max_path_count exceeded: PaymentPath::max_final_value_msat rounded a path's contribution below minimal_value_contribution_msat (fees follow the limiting hop)";
+const KF9: &str = "KF-C16-9 blinded path whose introduction node is a first-hop peer: the FirstHop entries added early (blind_intros_added) were stitched to a different continuation found later for that peer";
+const KF10: &str = "KF-C16-10 a limit exceeded by 1-2 msat after get_route step (8) merged identical paths and recomputed the proportional fee on the sum";
+const KF11: &str = "KF-C16-11 a limit exceeded jointly: a hop raised to its OWN htlc_minimum is booked in used_liquidities without the raise";
 /// virtual node index of the payee of a blinded request
 const BLINDED_PAYEE: usize = 999;
 /// One candidate the router may use, with the RAW data (ChannelUpdateInfo / ChannelDetails / RouteHintHop / BlindedPayInfo).
@@ -256,11 +259,14 @@ fn two_way(g: &[Chan], c: &Chan) -> bool { lookup(g, c.scid, c.dst, c.src).is_so
 fn usable_edge(g: &[Chan], c: &Chan) -> bool { c.kind != Kind::Pub || two_way(g, c) }
 fn excludes(q: &Req, c: &Chan) -> bool { if c.kind.is_blinded() { q.excluded_blinded.contains(&c.scid) } else { q.excluded.contains(&c.scid) } }
 /// the candidate a route hop stands for (index into g): blinded tail -> the blinded path with that index at the introduction node;
-/// from the payer with first_hops supplied -> only a first-hop channel to that peer, named by alias OR real scid;
+/// from the payer with first_hops supplied -> a first-hop channel to that peer, named by alias OR real scid, or else a route-hint hop whose
+/// source is the payer ("through the supplied first hops, route hints or blinded tails"; router tests allow_us_being_first_hint /
+/// first_hop_preferred_over_hint) — never a channel of the graph;
 /// otherwise the usable public direction, else a hint hop
 fn resolve(g: &[Chan], q: &Req, src: usize, h: &Hop) -> Option<usize> {
 	if h.blinded { return if src == q.payer { None } else { g.iter().position(|c| c.kind.is_blinded() && c.scid == h.scid && c.src == src && c.dst == h.node) }; }
-	if q.has_first && src == q.payer { return g.iter().position(|c| c.kind == Kind::First && (c.scid == h.scid || c.alt == Some(h.scid)) && c.src == src && c.dst == h.node); }
+	if q.has_first && src == q.payer { return g.iter().position(|c| c.kind == Kind::First && (c.scid == h.scid || c.alt == Some(h.scid)) && c.src == src && c.dst == h.node)
+		.or_else(|| g.iter().position(|c| c.kind == Kind::Hint && c.scid == h.scid && c.src == src && c.dst == h.node)); }
 	g.iter().position(|c| c.kind == Kind::Pub && c.scid == h.scid && c.src == src && c.dst == h.node && two_way(g, c))
 		.or_else(|| g.iter().position(|c| c.kind == Kind::Hint && c.scid == h.scid && c.src == src && c.dst == h.node))
 }
@@ -291,7 +297,7 @@ fn recheck(g: &[Chan], q: &Req, r: &[Vec<Hop>]) -> Result<(), (&'static str, Str
 		for i in 0..n {
 			let from = if i == 0 { q.payer } else { path[i - 1].node };
 			let c = match chans[i] { Some(c) => c, None => { chain_err.get_or_insert(format!("path {} hop {}: no usable {} {} from node {} to node {} among the candidates{}", pi, i, if path[i].blinded { "blinded path" } else { "channel" }, path[i].scid, from, path[i].node,
-				if q.has_first && from == q.payer { " (first_hops supplied: only a first-hop channel, by alias or scid, may be used)" } else { "" })); break; } };
+				if q.has_first && from == q.payer { " (first_hops supplied: only a first-hop channel, by alias or scid, or a hint hop starting at the payer may be used)" } else { "" })); break; } };
 			if path[i].blinded && i + 1 < n { chain_err.get_or_insert(format!("path {} hop {}: a blinded tail that is not the last element", pi, i)); }
 			if !usable_edge(g, c) { chain_err.get_or_insert(format!("path {} hop {}: channel {} has no policy for the reverse direction (not usable)", pi, i, c.scid)); }
 			if !c.enabled { chain_err.get_or_insert(format!("path {} hop {}: channel {} direction disabled", pi, i, c.scid)); }
@@ -366,6 +372,34 @@ fn final_raise_signature(g: &[Chan], q: &Req, r: &[Vec<Hop>], detail: &str) -> b
 	match resolve(g, q, src, &p[n - 1]) { Some(i) => g[i].min() >= 1 && g[i].min() == p[n - 1].fee, None => false }
 }
 
+/// at most this many oracle failures are REPORTED per known finding and run (all are counted in the classes and the notes): the
+/// recorder keeps 50 messages, and a new, different failure must never be crowded out by repetitions of a known one
+const KF_CAP: u64 = 3;
+fn kf_fail(rec: &mut Rec, seen: u64, msg: String) { if seen <= KF_CAP { rec.oracle_fail(msg); } }
+/// the number that follows `marker` in `detail`
+fn num_after(detail: &str, marker: &str) -> Option<u64> { detail.find(marker).and_then(|i| detail[i + marker.len()..].split(|c: char| !c.is_ascii_digit()).next()).and_then(|t| t.parse().ok()) }
+/// Does the invalid route show the specific signature of a known finding? Returns the id + pattern and a class name.
+fn kf_route_tag(g: &[Chan], q: &Req, r: &[Vec<Hop>], clause: &str, detail: &str) -> Option<(&'static str, &'static str)> {
+	let hinted = |scid: Option<u64>| scid.map_or(false, |s| g.iter().any(|c| c.kind == Kind::Hint && c.scid == s));
+	// KF-C16-7: the offending hop is a GRAPH channel NAMED BY A ROUTE HINT of the request
+	if clause == "chain" && ((detail.contains(" hop 0: no usable channel") && detail.contains("first_hops supplied") && hinted(num_after(detail, "no usable channel ")))
+		|| (detail.contains("direction disabled") && hinted(num_after(detail, ": channel ")))) {
+		return Some((KF7, "route:KF-C16-7(hint naming a graph channel / sourced at the payer bypasses first_hops or `enabled`)"));
+	}
+	// KF-C16-9: a path leaves over a first hop to a peer that is the introduction node of a blinded path, but continues over another hop
+	let stitched = r.iter().any(|p| p.len() >= 3 && !p[1].blinded && g.iter().any(|f| f.kind == Kind::First && f.dst == p[0].node && (f.scid == p[0].scid || f.alt == Some(p[0].scid))) && g.iter().any(|b| b.kind.is_blinded() && b.src == p[0].node));
+	if stitched && matches!(clause, "capacity" | "length" | "cltv" | "fee") {
+		return Some((KF9, "route:KF-C16-9(blinded path at a first-hop peer stitched to another continuation)"));
+	}
+	if clause == "capacity" && detail.contains("[own-minimum-raise] ") {
+		return Some((KF11, "route:KF-C16-11(limit exceeded jointly: a path raised to the candidate's own minimum is not booked as used liquidity)"));
+	}
+	if clause == "capacity" && q.mpp && q.maxpaths > 1 && (detail.starts_with("excess=1 ") || detail.starts_with("excess=2 ")) && g.iter().any(|c| c.fee_prop() > 0) {
+		return Some((KF10, "route:KF-C16-10(limit exceeded by 1-2 msat after identical paths were merged and the fee recomputed on the sum)"));
+	}
+	None
+}
+
 /// claim about the fee recurrence: every returned path's fee_msats are what the recurrence yields for the
 /// value the path delivers (`ne` only if a channel of the route is not among the candidates)
 fn recur_claim(g: &[Chan], q: &Req, r: &[Vec<Hop>]) -> &'static str {
@@ -377,10 +411,11 @@ fn recur_claim(g: &[Chan], q: &Req, r: &[Vec<Hop>]) -> &'static str {
 	"eq"
 }
 
-/// candidate the router may consider at all for this request (from the payer: the first hops only, if supplied)
+/// candidate the router may consider at all for this request (from the payer, if first hops were supplied: the first hops, and route-hint hops
+/// starting at the payer unless the hint names one of our channels to that peer — get_route ignores such a hint)
 fn edge_allowed(g: &[Chan], q: &Req, c: &Chan) -> bool {
 	usable_edge(g, c) && c.enabled && !excludes(q, c) &&
-		if c.src == q.payer { if q.has_first { c.kind == Kind::First } else { c.kind == Kind::Pub || c.kind == Kind::Hint } } else { c.kind != Kind::First }
+		if c.src == q.payer { if q.has_first { c.kind == Kind::First || (c.kind == Kind::Hint && !g.iter().any(|f| f.kind == Kind::First && (f.scid == c.scid || f.alt == Some(c.scid)) && f.src == c.src && f.dst == c.dst)) } else { c.kind == Kind::Pub || c.kind == Kind::Hint } } else { c.kind != Kind::First }
 }
 fn usable(g: &[Chan], q: &Req, c: &Chan) -> bool { edge_allowed(g, q, c) && c.min() <= q.amt && q.amt <= c.limit() }
 /// reference reachability (same definition as Lean `singlePathExists`)
@@ -611,26 +646,27 @@ fn record(rec: &mut Rec, st: &mut Stats, w: &World, g: &[Chan], gs: &str, q: &Re
 				e.0 += 1;
 				if e.1.is_empty() { e.1 = format!("noroute {} {}", req_str(q), gs); }
 				*rec.classes.entry("find_route:own-debug-assert(discarded)".into()).or_insert(0) += 1;
-			} else if ext && !FLAG_BLINDED_INTRO_STITCH && (p1.contains("Path had a length of") || p1.contains("*used_liquidity_msat <= hop_max_msat")) && g.iter().any(|b| b.kind.is_blinded() && g.iter().any(|f| f.kind == Kind::First && f.dst == b.src)) {
-				// CANDIDATE FINDING (reported to the integrator, see the run notes): a blinded path whose introduction node is one of our first-hop
-				// peers gets its FirstHop entries added at once (`blind_intros_added`, path length 1, the blinded path's fee and CLTV), before
-				// that peer is processed; when the peer later gets a cheaper continuation (a graph channel towards ANOTHER blinded path's
-				// introduction node) its `dist` entry is overwritten and the payer's entry is stitched to it: the route is longer than what
-				// the limits were checked against. Route::debug_assert_route_meets_params (a debug assertion with `_test_utils`, an error log
-				// otherwise) reports max_path_length exceeded; or the stitched path trips get_route's own `debug_assert!(*used_liquidity_msat <=
-				// hop_max_msat)` (the first hop's value was sized for the blinded path it was created for).
-				rec.discarded += 1; st.n_stitch += 1;
+			} else if (p1.contains("Path had a length of") || p1.contains("*used_liquidity_msat <= hop_max_msat")) && g.iter().any(|b| b.kind.is_blinded() && g.iter().any(|f| f.kind == Kind::First && f.dst == b.src)) {
+				// KF-C16-9: a blinded path whose introduction node is one of our first-hop peers gets its FirstHop entries added at once
+				// (`blind_intros_added`, path length 1, the blinded path's fee and CLTV), before that peer is processed; when the peer later
+				// gets a cheaper continuation (a graph channel towards ANOTHER blinded path's introduction node) its `dist` entry is
+				// overwritten and the payer's entry is stitched to it: the route is longer than what the limits were checked against.
+				// Route::debug_assert_route_meets_params (a debug assertion with `_test_utils`, an error log otherwise) reports
+				// max_path_length exceeded; or the stitched path trips get_route's own `debug_assert!(*used_liquidity_msat <= hop_max_msat)`.
+				st.n_stitch += 1;
 				if st.stitch_example.is_empty() { st.stitch_example = format!("{} | noroute {} {}", p1, req_str(q), gs); }
-				*rec.classes.entry("find_route:CANDIDATE-FINDING(max_path_length exceeded: blinded path at a first-hop peer stitched to a longer continuation; blinded requests only)".into()).or_insert(0) += 1;
-			} else if ext && !FLAG_PATH_COUNT_ROUNDING && p1.contains("paths.len() <= payment_params.max_path_count") && g.iter().any(|c| edge_allowed(g, q, c) && (c.fee_base() > 0 || c.fee_prop() > 0)) {
-				// CANDIDATE FINDING (reported to the integrator, see the run notes): with non-zero fees after a hop, PaymentPath::max_final_value_msat
-				// rounds the path's contribution DOWN below what add_entry! admitted (e.g. hop maximum 5, fees base 1 + 1 ppm: ⌊4000001/1000001⌋ = 3,
-				// although 4 + fee(4) = 5 fits), so a collected path contributes less than minimal_value_contribution_msat = ⌈amount/max_path_count⌉
-				// and more than max_path_count paths are needed: debug assertion here, a route with too many paths in a release build.
-				// Plain requests and the zero-fee fan family (seeded C16-b) stay failures.
-				rec.discarded += 1; st.n_count_rounding += 1;
+				kf_fail(rec, st.n_stitch, format!("{}: find_route panicked ({} at {}) on: noroute {} {}", KF9, p1, at, req_str(q), gs));
+				*rec.classes.entry("find_route:KF-C16-9(max_path_length exceeded: blinded path at a first-hop peer stitched to a longer continuation)".into()).or_insert(0) += 1;
+			} else if p1.contains("paths.len() <= payment_params.max_path_count") && g.iter().any(|c| edge_allowed(g, q, c) && (c.fee_base() > 0 || c.fee_prop() > 0)) {
+				// KF-C16-8: with non-zero fees after a hop, PaymentPath::max_final_value_msat rounds the path's contribution DOWN below what
+				// add_entry! admitted (e.g. hop maximum 5, fees base 1 + 1 ppm: ⌊4000001/1000001⌋ = 3, although 4 + fee(4) = 5 fits), so a
+				// collected path contributes less than minimal_value_contribution_msat = ⌈amount/max_path_count⌉ and more than max_path_count
+				// paths are needed: debug assertion here, a route with too many paths in a release build.
+				// The zero-fee fan family (seeded C16-b) stays a plain failure.
+				st.n_count_rounding += 1;
 				if st.count_rounding_example.is_empty() { st.count_rounding_example = format!("noroute {} {}", req_str(q), gs); }
-				*rec.classes.entry("find_route:CANDIDATE-FINDING(max_path_count exceeded: contribution rounded below the minimal contribution; extended requests with fees only)".into()).or_insert(0) += 1;
+				kf_fail(rec, st.n_count_rounding, format!("{}: find_route panicked ({} at {}) on: noroute {} {}", KF8, p1, at, req_str(q), gs));
+				*rec.classes.entry("find_route:KF-C16-8(max_path_count exceeded: contribution rounded below the minimal contribution)".into()).or_insert(0) += 1;
 			} else {
 				rec.oracle_fail(format!("find_route panicked ({} at {}) on: noroute {} {}", p1, at, req_str(q), gs));
 				*rec.classes.entry("find_route:panic".into()).or_insert(0) += 1;
@@ -641,41 +677,21 @@ fn record(rec: &mut Rec, st: &mut Stats, w: &World, g: &[Chan], gs: &str, q: &Re
 			let r = to_hops(&route, w, blinding_points);
 			if r.len() > 1 { st.n_multi += 1; }
 			let op = format!("route {} {} {}", req_str(q), gs, route_str(&r));
-			let mut bypass = false;
-			let mut ownmin = false;
+			let mut kf_class: Option<&'static str> = None;
 			let verdict = match recheck(g, q, &r) {
 				Ok(()) => "valid".to_string(),
-				// CANDIDATE FINDING (reported to the integrator, see the run notes): on a PROBE request — a route hint (A) whose source is
-				// the payer, (B) whose scid is a public channel of the payer that is NOT among first_hops, or (C) whose scid is a public
-				// channel whose direction towards the hint's target is DISABLED — the router (A, B) leaves the payer over that hint / graph
-				// channel although first_hops was supplied, (C) routes over the disabled direction: a hint naming a channel of the graph
-				// becomes a PublicHop candidate in `last_hop_candidates` without the `first_hops.is_none() || source != our_node_id` and
-				// `direction().enabled` tests of the graph walk. Both checkers say `invalid chain`; it is counted and
-				// documented, and becomes a failure as soon as FLAG_FIRST_HOP_BYPASS is set.
-				Err((clause, detail)) if probe && !FLAG_FIRST_HOP_BYPASS && clause == "chain" && ((detail.contains(" hop 0: no usable channel") && detail.contains("first_hops supplied")) || detail.contains("direction disabled")) => {
-					bypass = true; st.n_bypass += 1;
-					if st.bypass_example.is_empty() { st.bypass_example = format!("{} | {}", detail, op); }
-					format!("invalid {}", clause) },
-				// CANDIDATE FINDING (reported to the integrator, see the run notes): get_route step (8) merges paths over identical hops and
-				// recomputes the fees on the SUM; ⌊(a+b)·p⌋ may exceed ⌊a·p⌋ + ⌊b·p⌋ by a msat per proportional hop, and the merged path then
-				// carries that much more than a limit the two parts respected (e.g. limit 2, two parts of 1 msat with a 91.8 % hop: 1+0 each,
-				// merged 2+1 = 3). Only an excess of at most 2 msat on an MPP request is classified this way.
-				Err((clause, detail)) if ext && !FLAG_MERGE_ROUNDING && clause == "capacity" && q.mpp && q.maxpaths > 1 && (detail.starts_with("excess=1 ") || detail.starts_with("excess=2 ")) => {
-					bypass = true; st.n_merge += 1;
-					if st.merge_example.is_empty() { st.merge_example = format!("{} | {}", detail, op); }
-					format!("invalid {}", clause) },
-				// CANDIDATE FINDING (reported to the integrator, see the run notes): update_value_and_recompute_fees raises a hop to ITS OWN
-				// htlc_minimum (the surplus is paid as fee to the next node), but get_route books `value_contribution_msat + hop.next_hops_fee_msat`
-				// as used liquidity of that hop — without the raise — so a second path may use the "remaining" liquidity and the two together
-				// exceed the candidate's limit (seen on first hops whose next_outbound_htlc_minimum_msat is above the path's value).
-				Err((clause, detail)) if ext && !FLAG_OWN_MINIMUM_RAISE && clause == "capacity" && detail.contains("[own-minimum-raise] ") => {
-					bypass = true; ownmin = true; st.n_ownmin += 1;
-					if st.ownmin_example.is_empty() { st.ownmin_example = format!("{} | {}", detail, op); }
-					format!("invalid {}", clause) },
 				Err((clause, detail)) => {
-					let tag = if clause == "chain" && detail.contains("is paid") && final_raise_signature(g, q, &r, &detail) { "KF-C16-1 final-hop raised to htlc_minimum, upstream fee computed without the raise: " }
-						else if clause == "capacity" && r.iter().enumerate().any(|(i, _)| final_raise_signature(g, q, &r, &format!("path {} ", i))) { "KF-C16-6 htlc_maximum exceeded after raises to htlc_minimum (final-hop raise not propagated upstream, no re-check): " } else { "" };
-					rec.oracle_fail(format!("{}find_route returned a route violating clause `{}`: {} | {}", tag, clause, detail, op)); format!("invalid {}", clause) },
+					// KNOWN FINDINGS (see KF7 … KF11): the failure carries the stable id only when the route shows the finding's signature
+					let mut seen = 0u64;
+					let tag = if let Some((id, class)) = kf_route_tag(g, q, &r, clause, &detail) {
+						kf_class = Some(class);
+						let ex = format!("{} | {}", detail, op);
+						seen = match id { x if x == KF7 => { st.n_bypass += 1; if st.bypass_example.is_empty() { st.bypass_example = ex; } st.n_bypass }, x if x == KF9 => { st.n_stitch += 1; if st.stitch_example.is_empty() { st.stitch_example = ex; } st.n_stitch },
+							x if x == KF10 => { st.n_merge += 1; if st.merge_example.is_empty() { st.merge_example = ex; } st.n_merge }, _ => { st.n_ownmin += 1; if st.ownmin_example.is_empty() { st.ownmin_example = ex; } st.n_ownmin } };
+						format!("{}: ", id) }
+						else if clause == "chain" && detail.contains("is paid") && final_raise_signature(g, q, &r, &detail) { "KF-C16-1 final-hop raised to htlc_minimum, upstream fee computed without the raise: ".to_string() }
+						else if clause == "capacity" && r.iter().enumerate().any(|(i, _)| final_raise_signature(g, q, &r, &format!("path {} ", i))) { "KF-C16-6 htlc_maximum exceeded after raises to htlc_minimum (final-hop raise not propagated upstream, no re-check): ".to_string() } else { String::new() };
+					kf_fail(rec, seen, format!("{}find_route returned a route violating clause `{}`: {} | {}", tag, clause, detail, op)); format!("invalid {}", clause) },
 			};
 			// classify: shape of the route and whether a raise to a minimum is visible
 			let mut raised = false;
@@ -688,9 +704,7 @@ fn record(rec: &mut Rec, st: &mut Stats, w: &World, g: &[Chan], gs: &str, q: &Re
 			let over = r.iter().map(|p| p.last().unwrap().fee as u128).sum::<u128>() > q.amt as u128;
 			let class = format!("route:{}{}{}{}{}{}{}", if r.len() > 1 { "mpp" } else { "single" }, match r.iter().map(|p| p.iter().filter(|h| !h.blinded).count()).max().unwrap_or(0) { 1 => "/direct", 2 | 3 => "/2-3hops", _ => "/4+hops" }, if raised { "/at-minimum" } else { "" }, if over { "/overpays" } else { "" },
 				if first { "/first-hop" } else { "" }, if hint { "/hint" } else { "" }, if blinded { "/blinded-tail" } else { "" });
-			let class = if bypass && ownmin { "route:CANDIDATE-FINDING(limit exceeded jointly: a path raised to the candidate's own minimum is not booked as used liquidity; extended requests only)".to_string() }
-				else if bypass && verdict == "invalid capacity" { "route:CANDIDATE-FINDING(limit exceeded by 1-2 msat after identical paths were merged and the fee recomputed on the sum; extended MPP requests only)".to_string() }
-				else if bypass { "route:CANDIDATE-FINDING(hint naming a graph channel / sourced at the payer bypasses first_hops or `enabled`; probe requests only)".to_string() } else { class };
+			let class = match kf_class { Some(c) => c.to_string(), None => class };
 			rec.case(&op, &format!("{} recur={}", verdict, recur_claim(g, q, &r)), &class, true);
 			if ext {
 				// how often the completeness oracle of extended requests is armed (a route found while it is armed = it held)
@@ -930,6 +944,39 @@ fn ext_request(rng: &mut Rng, w: &World, secp: &Secp256k1<bitcoin::secp256k1::Al
 	(q, g, params, if has_first { Some(details) } else { None }, blinding_points)
 }
 
+/// Deterministic minimal inputs of the known findings KF-C16-7 … 11: a fixed small graph + request each, run through the REAL
+/// find_route at the start of every c16router run and judged by `record` like any generated case (so both checkers see them).
+/// (name, expectation on the unchanged router, op line in the `noroute` form that `parse_case` turns into the router's inputs)
+const PROBES: &[(&str, &str, &str)] = &[
+	// 0 payer, 1 first-hop peer, 2 payee; the 1->2 channel costs 1000 msat; a free hint hop 0 -> 2 over a channel that is NOT among first_hops
+	// (NOT a finding — the false alarm KF-C16-7/A, DESIGN 9.2: a route hint hop that starts at the payer is a way to the payee the property names; must stay VALID)
+	("FA-C16-7/A hint hop starting at the payer (admissible: through a route hint)", "VALID route whose only hop is hint channel 3000900 (first_hops supplied, the hint is cheaper)",
+	 "noroute 0 2 1000 - 1008 1 19 40 1 0 0 1 0 X 0 B 0 G 6 p 1 - 0 1 1 0 1000000 - 0 0 40 p 1 - 1 0 1 0 1000000 - 0 0 40 p 2 - 1 2 1 0 1000000 - 1000 0 40 p 2 - 2 1 1 0 1000000 - 0 0 40 f 2000001 1000001 0 1 1 0 1000000 - 0 0 0 h 3000900 - 0 2 1 0 - - 0 0 40"),
+	// as before, plus public channel 3 between payer and payee (not in first_hops); the hint (source: node 1) names scid 3
+	("KF-C16-7/B hint naming a public channel of the payer outside first_hops", "route payer -> payee over graph channel 3 although first_hops (one channel, to node 1) was supplied",
+	 "noroute 0 2 1000 - 1008 1 19 40 1 0 0 1 0 X 0 B 0 G 8 p 1 - 0 1 1 0 1000000 - 0 0 40 p 1 - 1 0 1 0 1000000 - 0 0 40 p 2 - 1 2 1 0 1000000 - 1000 0 40 p 2 - 2 1 1 0 1000000 - 0 0 40 p 3 - 0 2 1 0 1000000 - 0 0 40 p 3 - 2 0 1 0 1000000 - 0 0 40 f 2000001 1000001 0 1 1 0 1000000 - 0 0 0 h 3 - 1 2 1 0 - - 0 0 40"),
+	// no first_hops; channel 2 is DISABLED in the direction 1 -> 2 (the only way to the payee); the hint names scid 2
+	("KF-C16-7/C hint naming a public channel whose direction is disabled", "route 0 -> 1 -> 2 over the disabled direction of channel 2",
+	 "noroute 0 2 1000 - 1008 1 19 40 0 0 0 1 0 X 0 B 0 G 5 p 1 - 0 1 1 0 1000000 - 0 0 40 p 1 - 1 0 1 0 1000000 - 0 0 40 p 2 - 1 2 0 0 1000000 - 0 0 40 p 2 - 2 1 1 0 1000000 - 0 0 40 h 2 - 1 2 1 0 - - 0 0 40"),
+	// 8 msat in at most 2 paths (minimal contribution 4); three disjoint 2-hop paths 0 -> m -> 4 whose first channel carries at most 5 and whose
+	// second channel charges 1 msat + 1 ppm: add_entry! admits 4 (+1 fee = 5), max_final_value_msat returns floor(4000001/1000001) = 3
+	("KF-C16-8 contribution rounded below the minimal contribution", "three paths for max_path_count 2 (debug assertion paths.len() <= max_path_count; a 3-path route in a release build)",
+	 "noroute 0 4 8 - 1008 2 19 40 0 1 0 1 0 X 0 B 0 G 12 p 1 - 0 1 1 0 5 - 0 0 40 p 1 - 1 0 1 0 5 - 0 0 40 p 2 - 0 2 1 0 5 - 0 0 40 p 2 - 2 0 1 0 5 - 0 0 40 p 3 - 0 3 1 0 5 - 0 0 40 p 3 - 3 0 1 0 5 - 0 0 40 p 4 - 1 4 1 0 1000000 - 1 1 40 p 4 - 4 1 1 0 1000000 - 0 0 40 p 5 - 2 4 1 0 1000000 - 1 1 40 p 5 - 4 2 1 0 1000000 - 0 0 40 p 6 - 3 4 1 0 1000000 - 1 1 40 p 6 - 4 3 1 0 1000000 - 0 0 40"),
+	// max_path_length 1; first hop 0 -> 1; blinded path 0 starts at node 1 and costs 5000 msat, blinded path 1 starts at node 2 and is free;
+	// channel 5 joins 1 and 2 for 1 msat: the payer's entry (made for blinded path 0, length 1) is stitched to 1 -> 2 -> blinded path 1
+	("KF-C16-9 first-hop entry of a blinded path stitched to a longer continuation", "path of 2 hops for max_path_length 1 (Route::debug_assert_route_meets_params; a 2-hop route in a release build)",
+	 "noroute 0 999 1000 - 1008 1 1 0 1 0 0 1 0 X 0 B 0 G 5 p 5 - 1 2 1 0 1000000 - 1 0 40 p 5 - 2 1 1 0 1000000 - 1 0 40 f 2000001 1000001 0 1 1 0 1000000 - 0 0 0 b 0 - 1 999 1 0 1000000 - 5000 0 40 b 1 - 2 999 1 0 1000000 - 0 0 40"),
+	// 2 msat, MPP; both channels carry at most 2; channel 2 charges 91.8132 %: two parts of 1 msat (fee floor(0.918) = 0) fit, step (8) merges
+	// them into one path of 2 msat whose fee is floor(1.836) = 1: channel 1 carries 3
+	("KF-C16-10 merged identical paths, fee recomputed on the sum", "one path 0 -> 1 -> 2 with fee_msat 1, 2: channel 1 carries 3 msat > htlc_maximum 2",
+	 "noroute 0 2 2 - 1008 2 19 40 0 1 0 1 0 X 0 B 0 G 4 p 1 - 0 1 1 0 2 - 0 0 40 p 1 - 1 0 1 0 2 - 0 0 40 p 2 - 1 2 1 0 2 - 0 918132 40 p 2 - 2 1 1 0 2 - 0 0 40"),
+	// 6 msat in 2 paths; first hop 0 -> 1 with next_outbound_htlc_minimum_msat 5 and limit 9; two branches 1 -> m -> 2 whose middle channel carries at
+	// most 5 and whose last channel charges 1 msat + 1 ppm: each path is admitted with 4 (+1) = 5 = the first hop's minimum, rounded to 3 (+1) = 4
+	// by max_final_value_msat, raised back to 5 by update_value_and_recompute_fees, booked as 4: the second path takes the "remaining" 5
+	("KF-C16-11 raise to the first hop's own minimum not booked", "two paths that carry 5 + 5 = 10 msat over the first hop whose next_outbound_htlc_limit_msat is 9",
+	 "noroute 0 2 6 - 1008 2 19 40 1 1 0 1 0 X 0 B 0 G 9 p 10 - 1 3 1 0 5 - 0 0 40 p 10 - 3 1 1 0 5 - 0 0 40 p 11 - 3 2 1 0 1000000 - 1 1 40 p 11 - 2 3 1 0 1000000 - 0 0 40 p 12 - 1 4 1 0 5 - 0 0 40 p 12 - 4 1 1 0 5 - 0 0 40 p 13 - 4 2 1 0 1000000 - 1 1 40 p 13 - 2 4 1 0 1000000 - 0 0 40 f 2000001 1000001 0 1 1 5 9 - 0 0 0"),
+];
+
 fn router_model(args: &Args) {
 	let mut rec = Rec::new(&args.out, "c16router");
 	let mut rng = Rng::new(args.seed ^ 0x0c16);
@@ -955,6 +1002,21 @@ fn router_model(args: &Args) {
 		let (a, sc, h) = (o(&mut rng2), o(&mut rng2), rng2.range(1, 6));
 		let want = a == Some(h) || sc == Some(h);
 		rec.case(&format!("matchscid {} {} {}", a.map_or("-".into(), |x| x.to_string()), sc.map_or("-".into(), |x| x.to_string()), h), if want { "1" } else { "0" }, if want { "matchscid:own-channel" } else { "matchscid:other" }, true);
+	}
+	// the deterministic probes of the known findings (fixed inputs; the graph on the line is dumped from NetworkGraph::read_only())
+	for (k, (name, expect, line)) in PROBES.iter().enumerate() {
+		let c = parse_case(line, &w, &secp, &LOGGER).expect("probe line");
+		let mut g: Vec<Chan> = dump_graph(&c.ng, &w);
+		g.extend(c.g.iter().filter(|x| x.kind != Kind::Pub).cloned());
+		let gs = graph_str(&g);
+		let nodes: usize = { let mut s: HashSet<usize> = g.iter().flat_map(|c| [c.src, c.dst]).collect(); s.insert(c.q.payer); s.insert(c.q.payee); s.len() };
+		let res = run_case(&c, &w, &LOGGER);
+		let outcome = match &res { Err(p) => format!("panic: {}", p.replace('\n', " ")), Ok(Err(e)) => format!("no route ({})", e), Ok(Ok(route)) => { let r = to_hops(route, &w, &c.blinding_points); format!("{} -> {}", route_str(&r), match recheck(&g, &c.q, &r) { Ok(()) => "valid".to_string(), Err((cl, d)) => format!("invalid {}: {}", cl, d) }) } };
+		let before = rec.oracle_failures.len();
+		let mut scratch: Vec<lightning::routing::router::Path> = vec![];
+		record(&mut rec, &mut st, &w, &g, &gs, &c.q, nodes, true, true, &c.blinding_points, res, &mut scratch);
+		let reproduced = rec.oracle_failures.len() > before;
+		rec.notes.insert(format!("probe_{}", k + 1), format!("{}: {} | unchanged router: {} | this run: {} | input: {} {}", name, if reproduced { "REPRODUCED (oracle failure)" } else if name.starts_with("FA-") { "valid, as it must be" } else { "not reproduced (the router no longer shows it)" }, expect, outcome, req_str(&c.q), gs));
 	}
 	for _ in 0..n_graphs {
 		let n = match rng.below(10) { 0..=5 => rng.range(4, 9), 6..=8 => rng.range(10, 20), _ => rng.range(21, 40) } as usize;
@@ -1052,7 +1114,7 @@ fn router_model(args: &Args) {
 			}
 		}
 	}
-	rec.notes.insert("rule".into(), format!("random NetworkGraphs (4–40 nodes, parallel channels, unknown/known capacities via UTXO stub or partial announcement, zero/extreme fees, disabled directions, missing updates, htlc min/max around the amount), {} plain requests each (amount 1 msat … beyond capacity; max fee / CLTV / path count / path length / saturation / excluded channels varied; ProbabilisticScorer or fixed penalty) + {} EXTENDED requests each ({} in total: first_hops = 1–3 peers x 1–3 ChannelDetails with outbound alias != real scid (some announced channels of the graph), limits/minimums around the amount; 0–3 route hints of 1–3 hops incl. hints naming one of OUR channels by alias or by real scid; or 1–3 blinded tails (raw payinfo or a real BlindedPaymentPath::new, one-hop paths, introduction node = payer / a first-hop peer / any node); excluded channels and blinded-path indices; {} with a ProbabilisticScorer fed with successes/failures of earlier routes, {} with InFlightHtlcs of earlier routes); graph dumped from NetworkGraph::read_only(); every case distinct by op text. routes={} (mpp {} / with a hop at its minimum {} / through a first hop {} (named by the real scid {}) / through a hint hop {} / with a blinded tail {}), router errors={}, panics={}; the completeness oracle of extended requests (a single path through first hops / hints / blinded paths exists and EVERY candidate is ample) was armed on {} requests that returned a route (and is a failure with the request as input when the router returns an error). CANDIDATE FINDING (route hints bypass the graph walk's filters): {} probe requests carry a route hint (A) whose source is the payer over a channel that is not ours, (B) whose scid is a public channel of the payer missing from first_hops, or (C) whose scid is a public channel whose direction towards the hint's target is disabled; on {} of them find_route returned a route whose FIRST hop is that hint / graph channel although first_hops was supplied (A, B) or that uses the disabled direction (C) (last_hop_candidates are not filtered by `first_hops.is_none() || source != our_node_id` / `direction().enabled`); both checkers answer `invalid chain`; not counted as a failure until the integrator decides (FLAG_FIRST_HOP_BYPASS); the main generator avoids these two hint shapes. Example: {}. CANDIDATE FINDING (max_path_count): on {} extended requests find_route hit `assertion failed: paths.len() <= payment_params.max_path_count` (a route with too many paths in a release build): PaymentPath::max_final_value_msat rounds a path's contribution below minimal_value_contribution_msat when fees follow the limiting hop; counted as discarded, not as a failure, until the integrator decides (FLAG_PATH_COUNT_ROUNDING). Example: {}. CANDIDATE FINDING (max_path_length): on {} blinded requests with a blinded path whose introduction node is a first-hop peer, Route::debug_assert_route_meets_params reported `Path had a length of N+k, which is greater than the maximum we're allowed (N)` (or get_route's `debug_assert!(*used_liquidity_msat <= hop_max_msat)` fired on the stitched path): the FirstHop entries added by `blind_intros_added` are stitched to a longer continuation found later for that peer; counted as discarded until the integrator decides (FLAG_BLINDED_INTRO_STITCH). Example: {}. CANDIDATE FINDING (merge rounding): on {} extended MPP requests a candidate's limit was exceeded by 1–2 msat: get_route step (8) merges paths over identical hops and recomputes the fees on the sum, which can round a proportional fee up by a msat; both checkers answer `invalid capacity`; not a failure until the integrator decides (FLAG_MERGE_ROUNDING). Example: {}. CANDIDATE FINDING (own-minimum raise): on {} extended requests several paths share a candidate, one of them raised to the candidate's own htlc_minimum, and together they exceed its limit: used_liquidities books `value_contribution_msat + next_hops_fee_msat` without the raise; both checkers answer `invalid capacity`; not a failure until the integrator decides (FLAG_OWN_MINIMUM_RAISE). Example: {}",
+	rec.notes.insert("rule".into(), format!("random NetworkGraphs (4–40 nodes, parallel channels, unknown/known capacities via UTXO stub or partial announcement, zero/extreme fees, disabled directions, missing updates, htlc min/max around the amount), {} plain requests each (amount 1 msat … beyond capacity; max fee / CLTV / path count / path length / saturation / excluded channels varied; ProbabilisticScorer or fixed penalty) + {} EXTENDED requests each ({} in total: first_hops = 1–3 peers x 1–3 ChannelDetails with outbound alias != real scid (some announced channels of the graph), limits/minimums around the amount; 0–3 route hints of 1–3 hops incl. hints naming one of OUR channels by alias or by real scid; or 1–3 blinded tails (raw payinfo or a real BlindedPaymentPath::new, one-hop paths, introduction node = payer / a first-hop peer / any node); excluded channels and blinded-path indices; {} with a ProbabilisticScorer fed with successes/failures of earlier routes, {} with InFlightHtlcs of earlier routes); graph dumped from NetworkGraph::read_only(); every case distinct by op text. routes={} (mpp {} / with a hop at its minimum {} / through a first hop {} (named by the real scid {}) / through a hint hop {} / with a blinded tail {}), router errors={}, panics={}; the completeness oracle of extended requests (a single path through first hops / hints / blinded paths exists and EVERY candidate is ample) was armed on {} requests that returned a route (and is a failure with the request as input when the router returns an error). KNOWN FINDINGS (oracle failures with stable ids, at most 3 reported per id and run, all counted; deterministic minimal inputs: notes probe_1 … probe_7): KF-C16-7 route hints naming a graph channel bypass the graph walk's filters: {} random probe requests carry a route hint (A) whose source is the payer over a channel that is not ours [admissible: a route-hint hop is a way to the payee the property names; these routes must be valid], (B) whose scid is a public channel of the payer missing from first_hops, or (C) whose scid is a public channel whose direction towards the hint's target is disabled; {} routes (probes included) left the payer over such a graph channel although first_hops was supplied (B) or used the disabled direction (C) (the PublicHop candidates made from hints are not filtered by `first_hops.is_none() || source != our_node_id` / `direction().enabled`); the main generator avoids these hint shapes. Example: {}. KF-C16-8 max_path_count: {} requests hit `assertion failed: paths.len() <= payment_params.max_path_count` (a route with too many paths in a release build). Example: {}. KF-C16-9 blind_intros_added stitch: {} requests (max_path_length / used_liquidity assertion, or a returned route violating capacity / length / cltv / fee whose first hop leads to a blinded path's introduction node and continues elsewhere). Example: {}. KF-C16-10 merge rounding: {} routes exceed a limit by 1–2 msat after step (8). Example: {}. KF-C16-11 own-minimum raise not booked: {} routes. Example: {}",
 		per_graph, per_graph_ext, n_ext, n_fed, n_inflight, st.n_ok, st.n_multi, st.n_raise, st.n_first, st.n_alias_real, st.n_hint, st.n_blinded, st.n_err, st.n_panic, st.n_all_ample, st.n_probe, st.n_bypass, if st.bypass_example.len() > 2500 { &st.bypass_example[..2500] } else { &st.bypass_example[..] }, st.n_count_rounding, if st.count_rounding_example.len() > 2500 { &st.count_rounding_example[..2500] } else { &st.count_rounding_example[..] }, st.n_stitch, if st.stitch_example.len() > 2500 { &st.stitch_example[..2500] } else { &st.stitch_example[..] }, st.n_merge, if st.merge_example.len() > 2500 { &st.merge_example[..2500] } else { &st.merge_example[..] }, st.n_ownmin, if st.ownmin_example.len() > 2500 { &st.ownmin_example[..2500] } else { &st.ownmin_example[..] }));
 	for (i, (k, (n, ex))) in st.debug_asserts.iter().enumerate() {
 		rec.notes.insert(format!("debug_assert_{}", i + 1), format!("find_route hit its own debug assertion: {}, {} times (discarded, not a C16 clause); example input: {}", k, n, if ex.len() > 1500 { &ex[..1500] } else { &ex[..] }));
@@ -1068,81 +1130,102 @@ static PRINT: PrintLogger = PrintLogger;
 
 /// `c16 c16replay --replay FILE`: re-run the real router on `route` / `noroute` op lines (graph rebuilt
 /// from the line through partial announcements + unsigned updates) with the router's log on stderr.
+/// One `route` / `noroute` op line turned back into the router's inputs (graph rebuilt through partial announcements + unsigned
+/// updates, first hops, hints, blinded paths). A fed scorer / in-flight set is not reproduced.
+struct Case<L: lightning::util::logger::Logger + 'static> { q: Req, g: Vec<Chan>, ng: NetworkGraph<&'static L>, params: RouteParameters, details: Vec<ChannelDetails>, blinding_points: Vec<PublicKey> }
+fn parse_case<L: lightning::util::logger::Logger + 'static>(line: &str, w: &World, secp: &Secp256k1<bitcoin::secp256k1::All>, logger: &'static L) -> Option<Case<L>> {
+	let chain = ChainHash::using_genesis_block(Network::Testnet);
+	let ws: Vec<&str> = line.split_whitespace().collect();
+	if ws.len() < 19 || (ws[0] != "route" && ws[0] != "noroute") { return None; }
+	let num = |s: &str| s.parse::<u64>().unwrap();
+	let (payer, payee, amt) = (num(ws[1]) as usize, num(ws[2]) as usize, num(ws[3]));
+	let maxfee = if ws[4] == "-" { None } else { Some(num(ws[4])) };
+	let (maxcltv, maxpaths, maxlen, finalcltv, has_first, mpp, satpow, scorer, seed0) = (num(ws[5]), num(ws[6]), num(ws[7]), num(ws[8]), ws[9] == "1", ws[10] == "1", num(ws[11]), num(ws[12]), num(ws[13]) as u8);
+	let nx = num(ws[15]) as usize;
+	let excluded: Vec<u64> = ws[16..16 + nx].iter().map(|s| num(s)).collect();
+	let bi = 16 + nx; assert_eq!(ws[bi], "B");
+	let nb = num(ws[bi + 1]) as usize;
+	let excluded_blinded: Vec<u64> = ws[bi + 2..bi + 2 + nb].iter().map(|s| num(s)).collect();
+	let gi = bi + 2 + nb; assert_eq!(ws[gi], "G");
+	let nc = num(ws[gi + 1]) as usize;
+	let ng: NetworkGraph<&'static L> = NetworkGraph::new(Network::Testnet, logger);
+	let mut g = vec![];
+	let opt = |s: &str| if s == "-" { None } else { Some(s.parse::<u64>().unwrap()) };
+	let blind_pks: Vec<PublicKey> = (0..12usize).map(|i| { let mut sk = [0u8; 32]; sk[31] = (i + 1) as u8; sk[0] = 0x43; PublicKey::from_secret_key(secp, &SecretKey::from_slice(&sk).unwrap()) }).collect();
+	let (mut details, mut hints, mut cur_hint, mut bpaths, mut blinding_points): (Vec<ChannelDetails>, Vec<RouteHint>, Vec<RouteHintHop>, Vec<BlindedPaymentPath>, Vec<PublicKey>) = (vec![], vec![], vec![], vec![], vec![]);
+	for k in 0..nc {
+		let c = &ws[gi + 2 + 12 * k..gi + 14 + 12 * k];
+		let (id1, id2) = if c[0] == "f" { match (opt(c[1]), opt(c[2])) { (Some(a), r) => (a, r), (None, Some(r)) => (r, None), _ => panic!("first hop without ids") } } else { (num(c[1]), None) };
+		let ch = Chan { kind: Kind::from_tag(c[0]), scid: id1, alt: id2, src: num(c[3]) as usize, dst: num(c[4]) as usize, enabled: c[5] == "1", hmin: num(c[6]), hmax: opt(c[7]).unwrap_or(0), unbounded: c[7] == "-",
+			cap: opt(c[8]), base: num(c[9]), prop: num(c[10]), cltv: num(c[11]) };
+		match ch.kind {
+			Kind::Pub => {
+				let (one, two) = if w.ids[ch.src] < w.ids[ch.dst] { (ch.src, ch.dst) } else { (ch.dst, ch.src) };
+				let _ = ng.add_channel_from_partial_announcement(ch.scid, ch.cap.map(|m| m / 1000), 0, ChannelFeatures::empty(), w.ids[one], w.ids[two]);
+				let dir = if ch.src == one { 0u8 } else { 1u8 };
+				let upd = UnsignedChannelUpdate { chain_hash: chain, short_channel_id: ch.scid, timestamp: 2, message_flags: 1, channel_flags: dir | ((!ch.enabled as u8) << 1), cltv_expiry_delta: ch.cltv as u16,
+					htlc_minimum_msat: ch.hmin, htlc_maximum_msat: ch.hmax, fee_base_msat: ch.base as u32, fee_proportional_millionths: ch.prop as u32, excess_data: vec![] };
+				ng.update_channel_unsigned(&upd).unwrap();
+			},
+			// alt present: scid is the alias and alt the real scid; otherwise only a real scid (below 2_000_000) or only an alias
+			Kind::First => details.push(match ch.alt { Some(real) => channel_details(w.pks[ch.dst], Some(real), Some(ch.scid), ch.hmax, ch.hmin, real < 1_000_000), None => if ch.scid >= 2_000_000 { channel_details(w.pks[ch.dst], None, Some(ch.scid), ch.hmax, ch.hmin, false) } else { channel_details(w.pks[ch.dst], Some(ch.scid), None, ch.hmax, ch.hmin, ch.scid < 1_000_000) } }),
+			Kind::Hint => {
+				cur_hint.push(RouteHintHop { src_node_id: w.pks[ch.src], short_channel_id: ch.scid, fees: RoutingFees { base_msat: ch.base as u32, proportional_millionths: ch.prop as u32 }, cltv_expiry_delta: ch.cltv as u16, htlc_minimum_msat: Some(ch.hmin), htlc_maximum_msat: if ch.unbounded { None } else { Some(ch.hmax) } });
+				if ch.dst == payee { hints.push(RouteHint(std::mem::take(&mut cur_hint))); }
+			},
+			Kind::Blinded | Kind::OneHop => {
+				let i = bpaths.len();
+				let hops: Vec<BlindedHop> = (0..if ch.kind == Kind::OneHop { 1 } else { 2 }).map(|j| BlindedHop { blinded_node_id: blind_pks[(i + j + 1) % blind_pks.len()], encrypted_payload: vec![] }).collect();
+				bpaths.push(BlindedPaymentPath::from_blinded_path_and_payinfo(w.pks[ch.src], blind_pks[i], hops, BlindedPayInfo { fee_base_msat: ch.base as u32, fee_proportional_millionths: ch.prop as u32, cltv_expiry_delta: ch.cltv as u16, htlc_minimum_msat: ch.hmin, htlc_maximum_msat: ch.hmax, features: BlindedHopFeatures::empty() }));
+				blinding_points.push(blind_pks[i]);
+			},
+		}
+		g.push(ch);
+	}
+	let mut pp = if !bpaths.is_empty() { let b = PaymentParameters::blinded(bpaths); if mpp { let mut f = Bolt12InvoiceFeatures::empty(); f.set_basic_mpp_optional(); b.with_bolt12_features(f).unwrap() } else { b } }
+		else { let c = if mpp { PaymentParameters::for_keysend(w.pks[payee], finalcltv as u32, true) } else { PaymentParameters::from_node_id(w.pks[payee], finalcltv as u32) }; if hints.is_empty() { c } else { c.with_route_hints(hints).unwrap() } };
+	pp.max_path_count = maxpaths as u8; pp.max_total_cltv_expiry_delta = maxcltv as u32; pp.max_path_length = maxlen as u8; pp.max_channel_saturation_power_of_half = satpow as u8; pp.previously_failed_channels = excluded.clone(); pp.previously_failed_blinded_path_idxs = excluded_blinded.clone();
+	let params = RouteParameters { payment_params: pp, final_value_msat: amt, max_total_routing_fee_msat: maxfee };
+	let q = Req { payer, payee, amt, maxfee, maxcltv, maxpaths, maxlen, finalcltv, excluded, has_first, excluded_blinded, mpp, satpow: satpow as u8, scorer, seed0 };
+	Some(Case { q, g, ng, params, details, blinding_points })
+}
+/// run the real router on a parsed case (scorer kinds 1/2 fixed penalties, otherwise a fresh ProbabilisticScorer)
+fn run_case<L: lightning::util::logger::Logger + 'static>(c: &Case<L>, w: &World, logger: &'static L) -> Result<Result<Route, &'static str>, String> {
+	let seed_bytes = [c.q.seed0; 32];
+	let refs: Vec<&ChannelDetails> = c.details.iter().collect();
+	let fh: Option<&[&ChannelDetails]> = if c.q.has_first { Some(&refs[..]) } else { None };
+	let (payer, params, ng) = (c.q.payer, &c.params, &c.ng);
+	guarded(AssertUnwindSafe(|| match c.q.scorer % 10 {
+		1 => find_route(&w.pks[payer], params, ng, fh, logger, &FixedPenaltyScorer::with_penalty(0), &(), &seed_bytes),
+		2 => find_route(&w.pks[payer], params, ng, fh, logger, &FixedPenaltyScorer::with_penalty(rng_penalty(c.q.seed0)), &(), &seed_bytes),
+		_ => find_route(&w.pks[payer], params, ng, fh, logger, &ProbabilisticScorer::new(ProbabilisticScoringDecayParameters::default(), ng, logger), &ProbabilisticScoringFeeParameters::default(), &seed_bytes),
+	}))
+}
+fn world(secp: &Secp256k1<bitcoin::secp256k1::All>, nmax: usize) -> World {
+	let mut pks = vec![];
+	for i in 0..nmax { let mut sk = [0u8; 32]; sk[31] = (i + 1) as u8; sk[0] = 0x42; pks.push(PublicKey::from_secret_key(secp, &SecretKey::from_slice(&sk).unwrap())); }
+	let ids: Vec<NodeId> = pks.iter().map(|p| NodeId::from_pubkey(p)).collect();
+	let index: HashMap<NodeId, usize> = ids.iter().enumerate().map(|(i, id)| (*id, i)).collect();
+	World { pks, ids, index }
+}
+
+/// `c16 c16replay --replay FILE`: re-run the real router on `route` / `noroute` op lines (graph rebuilt
+/// from the line through partial announcements + unsigned updates) with the router's log on stderr.
 fn replay_model(args: &Args) {
 	let file = args.replay.as_ref().expect("--replay FILE");
 	let secp = Secp256k1::new();
-	let mut pks = vec![];
-	for i in 0..40usize { let mut sk = [0u8; 32]; sk[31] = (i + 1) as u8; sk[0] = 0x42; pks.push(PublicKey::from_secret_key(&secp, &SecretKey::from_slice(&sk).unwrap())); }
-	let ids: Vec<NodeId> = pks.iter().map(|p| NodeId::from_pubkey(p)).collect();
-	let index: HashMap<NodeId, usize> = ids.iter().enumerate().map(|(i, id)| (*id, i)).collect();
-	let w = World { pks, ids, index };
-	let chain = ChainHash::using_genesis_block(Network::Testnet);
+	let w = world(&secp, 40);
 	for line in std::fs::read_to_string(file).unwrap().lines() {
-		let ws: Vec<&str> = line.split_whitespace().collect();
-		if ws.len() < 19 || (ws[0] != "route" && ws[0] != "noroute") { continue; }
-		let num = |s: &str| s.parse::<u64>().unwrap();
-		let (payer, payee, amt) = (num(ws[1]) as usize, num(ws[2]) as usize, num(ws[3]));
-		let maxfee = if ws[4] == "-" { None } else { Some(num(ws[4])) };
-		let (maxcltv, maxpaths, maxlen, finalcltv, has_first, mpp, satpow, scorer, seed0) = (num(ws[5]), num(ws[6]), num(ws[7]), num(ws[8]), ws[9] == "1", ws[10] == "1", num(ws[11]), num(ws[12]), num(ws[13]) as u8);
-		let nx = num(ws[15]) as usize;
-		let excluded: Vec<u64> = ws[16..16 + nx].iter().map(|s| num(s)).collect();
-		let bi = 16 + nx; assert_eq!(ws[bi], "B");
-		let nb = num(ws[bi + 1]) as usize;
-		let excluded_blinded: Vec<u64> = ws[bi + 2..bi + 2 + nb].iter().map(|s| num(s)).collect();
-		let gi = bi + 2 + nb; assert_eq!(ws[gi], "G");
-		let nc = num(ws[gi + 1]) as usize;
-		let ng: NetworkGraph<&'static PrintLogger> = NetworkGraph::new(Network::Testnet, &PRINT);
-		let mut g = vec![];
-		let opt = |s: &str| if s == "-" { None } else { Some(s.parse::<u64>().unwrap()) };
-		let blind_pks: Vec<PublicKey> = (0..12usize).map(|i| { let mut sk = [0u8; 32]; sk[31] = (i + 1) as u8; sk[0] = 0x43; PublicKey::from_secret_key(&secp, &SecretKey::from_slice(&sk).unwrap()) }).collect();
-		let (mut details, mut hints, mut cur_hint, mut bpaths, mut blinding_points): (Vec<ChannelDetails>, Vec<RouteHint>, Vec<RouteHintHop>, Vec<BlindedPaymentPath>, Vec<PublicKey>) = (vec![], vec![], vec![], vec![], vec![]);
-		for k in 0..nc {
-			let c = &ws[gi + 2 + 12 * k..gi + 14 + 12 * k];
-			let (id1, id2) = if c[0] == "f" { match (opt(c[1]), opt(c[2])) { (Some(a), r) => (a, r), (None, Some(r)) => (r, None), _ => panic!("first hop without ids") } } else { (num(c[1]), None) };
-			let ch = Chan { kind: Kind::from_tag(c[0]), scid: id1, alt: id2, src: num(c[3]) as usize, dst: num(c[4]) as usize, enabled: c[5] == "1", hmin: num(c[6]), hmax: opt(c[7]).unwrap_or(0), unbounded: c[7] == "-",
-				cap: opt(c[8]), base: num(c[9]), prop: num(c[10]), cltv: num(c[11]) };
-			match ch.kind {
-				Kind::Pub => {
-					let (one, two) = if w.ids[ch.src] < w.ids[ch.dst] { (ch.src, ch.dst) } else { (ch.dst, ch.src) };
-					let _ = ng.add_channel_from_partial_announcement(ch.scid, ch.cap.map(|m| m / 1000), 0, ChannelFeatures::empty(), w.ids[one], w.ids[two]);
-					let dir = if ch.src == one { 0u8 } else { 1u8 };
-					let upd = UnsignedChannelUpdate { chain_hash: chain, short_channel_id: ch.scid, timestamp: 2, message_flags: 1, channel_flags: dir | ((!ch.enabled as u8) << 1), cltv_expiry_delta: ch.cltv as u16,
-						htlc_minimum_msat: ch.hmin, htlc_maximum_msat: ch.hmax, fee_base_msat: ch.base as u32, fee_proportional_millionths: ch.prop as u32, excess_data: vec![] };
-					ng.update_channel_unsigned(&upd).unwrap();
-				},
-				// alt present: scid is the alias and alt the real scid; otherwise only a real scid (below 2_000_000) or only an alias
-				Kind::First => details.push(match ch.alt { Some(real) => channel_details(w.pks[ch.dst], Some(real), Some(ch.scid), ch.hmax, ch.hmin, real < 1_000_000), None => if ch.scid >= 2_000_000 { channel_details(w.pks[ch.dst], None, Some(ch.scid), ch.hmax, ch.hmin, false) } else { channel_details(w.pks[ch.dst], Some(ch.scid), None, ch.hmax, ch.hmin, ch.scid < 1_000_000) } }),
-				Kind::Hint => {
-					cur_hint.push(RouteHintHop { src_node_id: w.pks[ch.src], short_channel_id: ch.scid, fees: RoutingFees { base_msat: ch.base as u32, proportional_millionths: ch.prop as u32 }, cltv_expiry_delta: ch.cltv as u16, htlc_minimum_msat: Some(ch.hmin), htlc_maximum_msat: if ch.unbounded { None } else { Some(ch.hmax) } });
-					if ch.dst == payee { hints.push(RouteHint(std::mem::take(&mut cur_hint))); }
-				},
-				Kind::Blinded | Kind::OneHop => {
-					let i = bpaths.len();
-					let hops: Vec<BlindedHop> = (0..if ch.kind == Kind::OneHop { 1 } else { 2 }).map(|j| BlindedHop { blinded_node_id: blind_pks[(i + j + 1) % blind_pks.len()], encrypted_payload: vec![] }).collect();
-					bpaths.push(BlindedPaymentPath::from_blinded_path_and_payinfo(w.pks[ch.src], blind_pks[i], hops, BlindedPayInfo { fee_base_msat: ch.base as u32, fee_proportional_millionths: ch.prop as u32, cltv_expiry_delta: ch.cltv as u16, htlc_minimum_msat: ch.hmin, htlc_maximum_msat: ch.hmax, features: BlindedHopFeatures::empty() }));
-					blinding_points.push(blind_pks[i]);
-				},
-			}
-			g.push(ch);
-		}
-		let mut pp = if !bpaths.is_empty() { let b = PaymentParameters::blinded(bpaths); if mpp { let mut f = Bolt12InvoiceFeatures::empty(); f.set_basic_mpp_optional(); b.with_bolt12_features(f).unwrap() } else { b } }
-			else { let c = if mpp { PaymentParameters::for_keysend(w.pks[payee], finalcltv as u32, true) } else { PaymentParameters::from_node_id(w.pks[payee], finalcltv as u32) }; if hints.is_empty() { c } else { c.with_route_hints(hints).unwrap() } };
-		pp.max_path_count = maxpaths as u8; pp.max_total_cltv_expiry_delta = maxcltv as u32; pp.max_path_length = maxlen as u8; pp.max_channel_saturation_power_of_half = satpow as u8; pp.previously_failed_channels = excluded.clone(); pp.previously_failed_blinded_path_idxs = excluded_blinded.clone();
-		let params = RouteParameters { payment_params: pp, final_value_msat: amt, max_total_routing_fee_msat: maxfee };
-		let q = Req { payer, payee, amt, maxfee, maxcltv, maxpaths, maxlen, finalcltv, excluded, has_first, excluded_blinded, mpp, satpow: satpow as u8, scorer, seed0 };
-		let seed_bytes = [seed0; 32];
-		eprintln!("=== replay {} {} ... (a fed scorer / in-flight set is not reproduced: fresh scorer)", ws[0], req_str(&q));
-		let refs: Vec<&ChannelDetails> = details.iter().collect();
-		let fh: Option<&[&ChannelDetails]> = if has_first { Some(&refs[..]) } else { None };
-		let res = guarded(AssertUnwindSafe(|| match scorer % 10 {
-			1 => find_route(&w.pks[payer], &params, &ng, fh, &PRINT, &FixedPenaltyScorer::with_penalty(0), &(), &seed_bytes),
-			2 => find_route(&w.pks[payer], &params, &ng, fh, &PRINT, &FixedPenaltyScorer::with_penalty(rng_penalty(seed0)), &(), &seed_bytes),
-			_ => find_route(&w.pks[payer], &params, &ng, fh, &PRINT, &ProbabilisticScorer::new(ProbabilisticScoringDecayParameters::default(), &ng, &PRINT), &ProbabilisticScoringFeeParameters::default(), &seed_bytes),
-		}));
-		match res {
+		// accept a bare op line or a whole oracle message: the op starts at a `route ` / `noroute ` that is followed by a number
+		let start = line.match_indices("route ").map(|(i, _)| i).find(|i| line[i + 6..].split(' ').next().map_or(false, |t| !t.is_empty() && t.bytes().all(|b| b.is_ascii_digit())));
+		let line = match start { Some(i) => if i >= 2 && &line[i - 2..i] == "no" { &line[i - 2..] } else { &line[i..] }, None => continue };
+		let c = match parse_case(line, &w, &secp, &PRINT) { Some(c) => c, None => continue };
+		let (g, q) = (&c.g, &c.q);
+		eprintln!("=== replay {} ... (a fed scorer / in-flight set is not reproduced: fresh scorer)", req_str(q));
+		match run_case(&c, &w, &PRINT) {
 			Err(p) => println!("panic {}", p),
-			Ok(Err(e)) => println!("err {} (reference: {}, ample: {})", e, if reference(&g, &q, &|c: &Chan| usable(&g, &q, c)) { "found" } else { "none" }, ample_path_exists(&g, &q, 1 + g.iter().map(|c| c.src.max(c.dst)).max().unwrap_or(0), if q.maxpaths > 1 && q.mpp { 2 } else { 1 })),
-			Ok(Ok(route)) => { let r = to_hops(&route, &w, &blinding_points); println!("{} -> {:?}", route_str(&r), recheck(&g, &q, &r)); },
+			Ok(Err(e)) => println!("err {} (reference: {}, ample: {})", e, if reference(g, q, &|c: &Chan| usable(g, q, c)) { "found" } else { "none" }, ample_path_exists(g, q, 1 + g.iter().map(|c| c.src.max(c.dst)).max().unwrap_or(0), if q.maxpaths > 1 && q.mpp { 2 } else { 1 })),
+			Ok(Ok(route)) => { let r = to_hops(&route, &w, &c.blinding_points); let v = recheck(g, q, &r); println!("{} -> {:?}{}", route_str(&r), v, match &v { Err((cl, d)) => kf_route_tag(g, q, &r, cl, d).map_or(" [no known-finding signature]".to_string(), |t| format!(" [{}]", &t.0[..t.0.find(' ').unwrap_or(t.0.len())])), Ok(()) => String::new() }); },
 		}
 	}
 }
